@@ -12,6 +12,9 @@ import (
 )
 
 func loadOverlay(harnessDir, repo string) map[string][]byte {
+	if ov, _, err := sym.BuildOverlay(filepath.Dir(harnessDir), repo, false); err == nil {
+		return ov
+	}
 	ov := map[string][]byte{}
 	files, _ := filepath.Glob(filepath.Join(harnessDir, "*.go"))
 	for _, f := range files {
@@ -44,6 +47,36 @@ func main() {
 		for _, f := range r.Failures {
 			fmt.Println("  FAIL", f)
 		}
+	case "run":
+		fs := flag.NewFlagSet("run", flag.ExitOnError)
+		prop := fs.String("p", "", "property id")
+		tier := fs.String("tier", os.Getenv("VERIF_TIER"), "quick|thorough")
+		workers := fs.Int("j", 16, "")
+		only := fs.String("h", "", "only these harnesses")
+		maxSec := fs.Int("sec", 0, "time budget override")
+		noReplay := fs.Bool("noreplay", false, "")
+		fs.Parse(os.Args[2:])
+		if *tier == "" {
+			*tier = "quick"
+		}
+		var seed int64
+		fmt.Sscan(os.Getenv("VERIF_SEED"), &seed)
+		cfg := &sym.CheckConfig{Property: *prop, Tier: *tier, Seed: seed, RepoDir: "/repo", VerifDir: "/verif", Workers: *workers, OnlyH: *only, MaxSec: *maxSec, NoReplay: *noReplay}
+		out := sym.RunCheck(cfg)
+		os.Exit(out.ExitCode)
+	case "replay":
+		cfg := &sym.CheckConfig{RepoDir: "/repo", VerifDir: "/verif", Tier: "quick"}
+		res, logs, err := sym.NativeReplay(cfg, os.Args[2:], false, 60)
+		if err != nil {
+			fmt.Println(err)
+		}
+		for p, r := range res {
+			fmt.Printf("%s: failed=%v panic=%q diverged=%q timed_out=%v %.2fs\n", p, r.Failed, r.Panic, r.Diverged, r.TimedOut, r.Seconds)
+			if len(r.Failed) > 0 || r.Panic != "" || r.TimedOut {
+				defer os.Exit(1)
+			}
+		}
+		_ = logs
 	case "explore":
 		fs := flag.NewFlagSet("explore", flag.ExitOnError)
 		h := fs.String("h", "", "harness function (comma separated)")
